@@ -101,8 +101,8 @@ func runC16(c *core.Ctx) error {
 		return err
 	}
 	avoid := c.KF.Avoid()
-	total := c.Pick(100, 4000)
-	chunks := c.Pick(4, 40)
+	total := c.Pick(300, 4000)
+	chunks := c.Pick(6, 40)
 	c.Ev.Coverage.Rule = "cases = (degenerate schema drawn by rapid: type cycles through singular/repeated/map/oneof fields, mutual cycles, chains and nested definitions to depth 60, 100-400 fields, very long names, well-known types, empty messages/services, shared request types, missing go_package) x plugin x parameters (generate_mock, format, paths); each case is one plugin process judged on exit status, stdout, stderr, wall time (20 s, re-run alone before it counts) and peak RSS (2 GiB). Non-trivial = schema has a type cycle, depth >= 8, >= 100 fields, an empty service, a well-known type or a missing go_package; distinct by (schema, plugin, parameter)."
 	c.Ev.Assumptions = []string{"termination is observed with a bound (20 s, 2 GiB), not proved", "descriptor well-formedness is enforced by the generator and protodesc.NewFiles, standing in for protoc"}
 	for k := 0; k < chunks; k++ {
